@@ -11,24 +11,27 @@ set_option linter.unusedSectionVars false
 variable {F : Type} [Field F] [DecidableEq F]
 
 /-- **Arbitrary key.**  Whatever `commit` returns is the dot product of the evaluation vector with
-the first table of the key (and the polynomial's own `nv` as tag) — for any key scalars. -/
+the first table of the key, tagged with the number of variables (the key's) — for any key scalars. -/
 theorem mlpc_commit_is_msm (ck : MLPC.CK F) (nv : Nat) (evals : List F) (c : MLPC.Commitment F)
     (h : MLPC.commit ck nv evals = .ok c) :
-    c.gProduct = dot (ck.powersOfG.headD []) evals ∧ c.nv = nv := by
+    c.gProduct = dot (ck.powersOfG.headD []) evals ∧ c.nv = nv ∧ nv = ck.nv := by
   unfold MLPC.commit at h
   split at h
   · cases h
-  · rename_i p0 rest hp
-    cases h
-    simp [hp]
+  · rename_i hnv
+    split at h
+    · cases h
+    · rename_i p0 rest hp
+      cases h
+      exact ⟨by simp [hp], rfl, Decidable.not_not.1 hnv⟩
 
 /-- **Well-formed key.**  With the tables of trapdoor `t` (non-empty) and generator `g`, the
 commitment of a polynomial with `2^|t|` evaluations is `g·f̃(t)`. -/
-theorem mlpc_commit_spec (g h a : F) (ts : List F) (nv : Nat) (evals : List F)
+theorem mlpc_commit_spec (g h a : F) (ts : List F) (evals : List F)
     (he : evals.length = 2 ^ (ts.length + 1)) :
-    MLPC.commit (MLPC.wfCK g h (a :: ts)) nv evals
-      = .ok ⟨nv, g * MLPC.mleEval evals (a :: ts)⟩ :=
-  MLPC.commit_wf g h a ts nv evals he
+    MLPC.commit (MLPC.wfCK g h (a :: ts)) (ts.length + 1) evals
+      = .ok ⟨ts.length + 1, g * MLPC.mleEval evals (a :: ts)⟩ :=
+  MLPC.commit_wf g h a ts evals he
 
 /-- the table `commit` uses is `g` times the `eq`-tensor of the trapdoor -/
 theorem mlpc_commit_eq_tensor (g : F) (t evals : List F) (he : evals.length = 2 ^ t.length) :
